@@ -1,8 +1,9 @@
 ------------------------------ MODULE Trace_Redecl ------------------------------
 (* Validates histories of cdef() calls recorded from the real FFI (props/x01.py).
    Traces == sequence of traces; a trace is a sequence of steps
-     [items, override, err, decl (list of <<key, desc, quals>>), ints (list of <<name, value>>)]
-   where decl/ints are the projected tables AFTER the call.
+     [op, items, override, err, decl (list of <<key, desc, quals>>), ints (list of <<name, value>>)]
+   op = "a": cdef() on the FFI that gets included, "b" (default): cdef() on the including FFI, "inc": b.include(a);
+   decl/ints are the projected tables of the affected FFI AFTER the step.
    For every trace: the laws of Redecl are evaluated on the recorded states themselves
    (<<"VERDICT", t, step, law>> for the first failing law) and the recorded outcome and tables
    are compared with the implementation model (<<"DIVERGE", t, step, what>>).  <<"CHECKED", n>> last. *)
@@ -14,7 +15,7 @@ RecState(c) ==
   LET D == ToSet(c.decl)  I == ToSet(c.ints) IN
   [decl |-> [key \in {e[1] : e \in D} |-> LET e == CHOOSE e \in D : e[1] = key IN [obj |-> 0, desc |-> e[2], quals |-> e[3]]],
    ints |-> [n \in {e[1] : e \in I} |-> (CHOOSE e \in I : e[1] = n)[2]],
-   next |-> 0]
+   next |-> 0, order |-> <<>>, iorder |-> <<>>]
 MacroNames(c) == {it[2] : it \in {x \in ToSet(c.items) : IsMacro(x)}}
 
 Law(p, c) ==
@@ -27,23 +28,43 @@ Law(p, c) ==
   ELSE IF c.err # "" /\ c.override /\ c.err = "decl" THEN "OverrideRejected"
   ELSE "ok"
 
-RECURSIVE Laws(_, _, _)
-Laws(p, tr, i) == IF i > Len(tr) THEN <<"ok", 0>>
-                  ELSE LET v == Law(p, tr[i]) IN IF v # "ok" THEN <<v, i>> ELSE Laws(RecState(tr[i]), tr, i + 1)
+IncLaw(pa, pb, c) ==
+  LET t == RecState(c) IN
+  IF ~IntsImmutableStep(pb, t) THEN "Include.IntsImmutable"
+  ELSE IF ~BindImmutableStep(pb, t, FALSE) THEN "Include.BindImmutable"
+  ELSE IF c.err \notin {"", "decl", "const"} THEN "Include.ErrorClass"
+  ELSE IF c.err = "" /\ ~(\A kk \in DOMAIN pa.decl : IsTypedefKey(kk) =>
+                              (kk \in DOMAIN t.decl /\ t.decl[kk].desc = pa.decl[kk].desc /\ t.decl[kk].quals = pa.decl[kk].quals))
+       THEN "Include.Shares"
+  ELSE IF c.err = "" /\ ~(\A n \in DOMAIN pa.ints : n \in DOMAIN t.ints /\ t.ints[n] = pa.ints[n]) THEN "Include.Constants"
+  ELSE "ok"
 
-RECURSIVE Model(_, _, _)
-Model(st, tr, i) ==
+OpOf(c) == IF "op" \in DOMAIN c THEN c.op ELSE "b"
+
+RECURSIVE Laws(_, _, _, _)
+Laws(pa, pb, tr, i) ==
   IF i > Len(tr) THEN <<"ok", 0>>
   ELSE LET c == tr[i]
-           r == Call(st, c.items, c.override)
+           op == OpOf(c)
+           v == IF op = "a" THEN Law(pa, c) ELSE IF op = "b" THEN Law(pb, c) ELSE IncLaw(pa, pb, c)
+       IN IF v # "ok" THEN <<v, i>>
+          ELSE IF op = "a" THEN Laws(RecState(c), pb, tr, i + 1) ELSE Laws(pa, RecState(c), tr, i + 1)
+
+RECURSIVE Model(_, _, _, _)
+Model(sa, sb, tr, i) ==
+  IF i > Len(tr) THEN <<"ok", 0>>
+  ELSE LET c == tr[i]
+           op == OpOf(c)
+           r == IF op = "a" THEN Call(sa, c.items, c.override)
+                ELSE IF op = "b" THEN Call(sb, c.items, c.override) ELSE Include(sb, sa)
        IN IF r.err # c.err THEN <<"outcome", i>>
           ELSE IF DeclSet(r.s) # ToSet(c.decl) THEN <<"decl", i>>
           ELSE IF IntSet(r.s) # ToSet(c.ints) THEN <<"ints", i>>
-          ELSE Model(r.s, tr, i + 1)
+          ELSE IF op = "a" THEN Model(r.s, sb, tr, i + 1) ELSE Model(sa, r.s, tr, i + 1)
 
 Check(t) == LET tr == Traces[t]
-                v == Laws(S0, tr, 1)
-                m == Model(S0, tr, 1)
+                v == Laws(S0, S0, tr, 1)
+                m == Model(S0, S0At(1000), tr, 1)
             IN /\ IF v[1] = "ok" THEN TRUE ELSE PrintT(<<"VERDICT", t, v[2], v[1]>>)
                /\ IF m[1] = "ok" THEN TRUE ELSE PrintT(<<"DIVERGE", t, m[2], m[1]>>)
 TInit == k = 0
